@@ -204,7 +204,10 @@ struct Line {
     n_steps: usize,
 }
 
-fn make_line(call: &Call, info: &GInfo, nip: bool) -> Line {
+/// `op_panic`: the run ended with a panic that is not one of `run_plan`'s own (i.e. an operator,
+/// or code outside `run_plan`, panicked): the model cannot predict it, so it is passed in the
+/// request as `fail=p<op>` (an abstract-operator observable, like an operator error).
+fn make_line(call: &Call, info: &GInfo, nip: bool, op_panic: bool) -> Line {
     let mut steps: Vec<StepRec> = vec![];
     let mut outs: Vec<(u32, bool)> = vec![];
     for ev in &call.evs {
@@ -257,7 +260,13 @@ fn make_line(call: &Call, info: &GInfo, nip: bool) -> Line {
     } else {
         "err@out".to_string()
     };
-    let fail = if !all_done && !call.panicking { format!("e{}", steps[n - 1].op) } else { "-".to_string() };
+    let fail = if !all_done && !call.panicking {
+        format!("e{}", steps[n - 1].op)
+    } else if !all_done && call.panicking && op_panic {
+        format!("p{}", steps[n - 1].op)
+    } else {
+        "-".to_string()
+    };
     let mut lens: Vec<String> = vec![];
     let mut step_strs: Vec<String> = vec![];
     let (mut n_inplace, mut n_byval, mut n_released) = (0, 0, 0);
@@ -532,11 +541,23 @@ fn do_run(case: &Case, cfg: &Cfg, pools: &Pools) -> RunRec {
         Err(m) => Outcome::Panic(m),
     };
     let calls = split_calls(&trace);
+    // run_plan's own panics (the model predicts these); anything else is an operator panic
+    let op_panic = match &outcome {
+        Outcome::Panic(m) => ![
+            "Invalid plan did not produce",
+            "input is available",
+            "missing output value",
+            "is not a value or constant",
+        ]
+        .iter()
+        .any(|own| m.contains(own)),
+        _ => false,
+    };
     let mut lines = vec![];
     let mut unknown_graph = false;
     for c in &calls {
         match case.infos.get(&c.graph) {
-            Some(info) => lines.push(make_line(c, info, cfg.nip)),
+            Some(info) => lines.push(make_line(c, info, cfg.nip, op_panic)),
             None => unknown_graph = true,
         }
     }
